@@ -17,8 +17,13 @@ CFG = dict(
     find_bad_from="find_bad_from",
     go_tags="st",
     rigs=[dict(test="TestC03Pure", timeout_quick=300, timeout_thorough=900),
-          dict(test="TestC03E2E", timeout_quick=300, timeout_thorough=1200)],
-    reason_text={"1": "implementation output differs from the Gallina model (Model/Status.v)",
+          dict(test="TestC03E2E", timeout_quick=300, timeout_thorough=1200),
+          dict(test="TestGenEquivC03", timeout_quick=300, timeout_thorough=300)],
+    technique="machine-checked proof (Rocq/Coq 8.16.1) of theorems about a hand-written Gallina model + correspondence check on every run; "
+              "for errorIfDone (client stream classification) additionally: model regenerated from source by tools/go2coq + equivalence "
+              "proof (coq/Gen/ErrorIfDoneEquiv.v) re-checked on every run",
+    reason_text={"1": "implementation output differs from the Gallina model (Model/Status.v), or errorIfDone regenerated from the source is "
+                      "no longer proved equal to client_stream_final / left the translator's subset",
                  "2": "the caller's observation is not the handler's status (Check/C03c.v: spec_unary_obs / spec_stream_obs: success iff the "
                       "handler returned nil, else code, message, details of the handler's status, never OK)",
                  "3": "a call was reported successful although its final envelope carries a reset or a non-OK status or no body (nfs_unary / nfs_stream)",
